@@ -3,6 +3,7 @@
    file <path>    same, stream read from a file
    emit <ints>    build a sequential stream with the spec writer (see checks/C04.py for the format)
    lemit <ints>   build a lossless (SOF3) stream with the spec writer
+   paemit <ints>  build a progressive arithmetic-coded (SOF10) stream with the spec writer (G.1.3)
    aemit <ints>   build a sequential arithmetic-coded (SOF9) stream with the spec writer (Annex D, F.1.4)
    Result lines:  ok sof=<n> nc=<k> warn=0 | w h c.. | w h c.. ; Q q0..q63 ; Q ..   (decoded; tables in natural order)
                   lossless sof=3 nc=<k> warn=0 | w h s.. | ..                        (Annex H samples)
@@ -38,8 +39,9 @@ let dec_bytes bs =
           List.iter (fun c -> Buffer.add_char b ' '; Buffer.add_string b (string_of_int (int_of_z c))) l) comps;
         print_endline (Buffer.contents b)
     end else
-    if n > 2 && n <> 9 then Printf.printf "parsed sof=%d\n" n else
-    match (if n = 2 then t81_decode_progressive st else if n = 9 then t81_decode_arith st else t81_decode st) with
+    if n > 2 && n <> 9 && n <> 10 then Printf.printf "parsed sof=%d\n" n else
+    match (if n = 2 then t81_decode_progressive st else if n = 9 then t81_decode_arith st
+           else if n = 10 then t81_decode_arith_prog st else t81_decode st) with
     | None -> Printf.printf "decode-fail sof=%d\n" n
     | Some comps ->
       let b = Buffer.create 65536 in
@@ -53,7 +55,7 @@ let dec_bytes bs =
       print_endline (Buffer.contents b)
 let hex_of bs =
   let b = Buffer.create 4096 in List.iter (fun z -> Buffer.add_string b (Printf.sprintf "%02x" (int_of_z z))) bs; Buffer.contents b
-let emit_line lossless arith toks =
+let emit_line lossless arith prog toks =
   let a = Array.of_list (List.map int_of_string toks) in
   let pos = ref 0 in
   let next () = let v = a.(!pos) in incr pos; v in
@@ -89,6 +91,17 @@ let emit_line lossless arith toks =
     end else begin
       let coefs = rep nc (fun () -> let nb = next () in rep nb (fun () -> rep 64 nz)) in
       let ni = next () in
+      if prog then begin
+        let items = rep ni (fun () ->
+          let kind = next () in let fill = nat_of_int (next ()) in
+          match kind with
+          | 0 -> let s = seg () in PAMisc (fill, s)
+          | 1 -> PAFrame fill
+          | _ -> let sc = scomps () in let ss = nz () in let se = nz () in let ah = nz () in let al = nz () in
+                 let rf = fills () in PAScan (fill, sc, ss, se, ah, al, rf)) in
+        let ef = nat_of_int (next ()) in
+        t81_emit_arith_prog items ef { im_p = p; im_y = y; im_x = x; im_comps = comps; im_coefs = coefs }
+      end else
       let items = rep ni (fun () ->
         let kind = next () in let fill = nat_of_int (next ()) in
         match kind with
@@ -106,7 +119,8 @@ let () = iter_lines (fun line ->
   match words line with
   | [ "dec"; h ] -> (try dec_bytes (bytes_of_hex h) with Failure _ -> print_endline "reject-syntax")
   | [ "file"; p ] -> dec_bytes (bytes_of_file p)
-  | "emit" :: toks -> (try emit_line false false toks with Invalid_argument _ | Failure _ -> print_endline "fail")
-  | "lemit" :: toks -> (try emit_line true false toks with Invalid_argument _ | Failure _ -> print_endline "fail")
-  | "aemit" :: toks -> (try emit_line false true toks with Invalid_argument _ | Failure _ -> print_endline "fail")
+  | "paemit" :: toks -> (try emit_line false true true toks with Invalid_argument _ | Failure _ -> print_endline "fail")
+  | "emit" :: toks -> (try emit_line false false false toks with Invalid_argument _ | Failure _ -> print_endline "fail")
+  | "lemit" :: toks -> (try emit_line true false false toks with Invalid_argument _ | Failure _ -> print_endline "fail")
+  | "aemit" :: toks -> (try emit_line false true false toks with Invalid_argument _ | Failure _ -> print_endline "fail")
   | _ -> print_endline "?")
